@@ -64,6 +64,10 @@ def typestate_obligations(name: str, out, fn, single_block: bool = True, known_c
             blocks += 1
             loop_of_block[blocks] = tuple(id(b.var) for b in ev.binders)
         elif ev.kind == 'exit_txn':
+            if depth > 1:
+                # `with conn:` blocks do not nest: leaving the inner one commits (or rolls back) the whole
+                # transaction of the connection, including what the enclosing block has written so far
+                bad_events.append('commit by the exit of a nested `with conn` block')
             depth -= 1
         elif ev.kind in ('commit', 'rollback', 'executescript', 'close'):
             bad_events.append(ev.kind)
